@@ -334,6 +334,11 @@ def run_case(concepts, case, spec):
     call(lat.graphviz, make_property_label=Recorder('R'))
     call(lat.graphviz)
     call(lat.graphviz, 'lattice.gv', spec['workdir'], make_object_label=Recorder('S'), make_property_label=Recorder('T'))
+    if len(ctx.objects) <= 12 and len(ctx.properties) <= 12 and sl.n <= 200:
+        common.interference(concepts, ctx, lat, rng, 15)
+        call(lat.graphviz, make_object_label=Recorder('I'), make_property_label=Recorder('J'))
+        call(lat.graphviz)
+        COL.count('asked_again_after_interference')
     old = POOL.older(rng)
     if old is not None:
         call(old.graphviz, make_object_label=Recorder('U'), make_property_label=Recorder('V'))
